@@ -304,11 +304,15 @@ class Ref:
                 r = a - b
             elif op == '*':
                 r = a * b
+                if isinstance(r, int) and abs(r) > 2 ** 53:        # integer arithmetic continues in floats beyond 2^53
+                    r = float(a) * float(b)
             elif op == '/':
                 r = a / b
             elif op == '%':
                 r = a % b
             elif op == '**':
+                if isinstance(a, int) and isinstance(b, int) and b > 0 and abs(a).bit_length() * b > 53:
+                    a = float(a)                                   # a power that may need more than 53 bits is a float power
                 r = a ** b
             else:
                 raise Unsupported(op)
